@@ -190,7 +190,8 @@ class Gen(object):
             if self.rng.random() < self.prologue:
                 self.maybe.add(n)
                 body.append({'k': 'assign', 'targets': [('n', n, 0)], 'value': []})
-        body += self.block(self.depth, False, 2, 4)
+        if not getattr(self, 'tiny', False):
+            body += self.block(self.depth, False, 2, 4)
         if self.single:
             inject_single(body, self.rng)
         if getattr(self, 'multi', False):
@@ -199,6 +200,8 @@ class Gen(object):
             inject_blockfirst(body, self.rng)
         if getattr(self, 'loops', False):
             inject_loops(body, self.rng)
+        if getattr(self, 'withs', False):
+            inject_with(body, self.rng)
         return body
 
 
@@ -289,13 +292,25 @@ def inject_loops(body, rng, name='v'):
     inner = {'k': 'while', 'test': [], 'body': [{'k': 'assign', 'targets': [('n', name, 0)], 'value': []}], 'lid': 901, 'orelse': []}
     if rng.random() < 0.3:
         inner = {'k': 'for', 'target': ('n', 'u', 0), 'iter': [], 'body': [{'k': 'assign', 'targets': [('n', name, 0)], 'value': []}], 'orelse': []}
-    ob = [dict(read), inner] + ([dict(read)] if rng.random() < 0.4 else [])
+    # (the read before the inner loop is guarded: on the first trip the name is still unbound, and a failed read ends the execution)
+    ob = [{'k': 'if', 'test': [], 'body': [dict(read)], 'orelse': []}, inner] + ([dict(read)] if rng.random() < 0.4 else [])
     if rng.random() < 0.5:
         outer = {'k': 'while', 'test': [], 'body': ob, 'lid': 900, 'orelse': []}
     else:
         outer = {'k': 'for', 'target': ('n', 'u', 0), 'iter': [], 'body': ob, 'orelse': []}
     body.append(outer)
     body.append(dict(read))
+    return body
+
+
+def inject_with(body, rng, names=('s', 't')):
+    """append a with statement of several items where a later item's context expression reads the target an earlier item has
+    just bound (and nothing else binds it): the target must be visible inside the header, from its own item on"""
+    a, b = names
+    items = [([], ('n', a, 0)), ([('r', a, 0)], ('n', b, 0))]
+    if rng.random() < 0.4:
+        items.append(([('r', b, 0), ('r', a, 0)], None))
+    body.append({'k': 'with', 'items': items, 'body': [{'k': 'expr', 'value': [('r', a, 0), ('r', b, 0)]}]})
     return body
 
 
